@@ -26,7 +26,7 @@ ASSUMPTIONS = [
 ]
 REQUIRED = {"roundtrip.v2.mol": 50, "roundtrip.v2.ens": 20, "roundtrip.v1.mol": 10, "roundtrip.v1.ens": 10,
             "read.fresh-handle": 50, "source-unchanged": 50, "read.again-after-editing-previous-result": 50,
-            "source.atoms-lent-to-another-structure": 20, "source.large-text-attribute": 10, "read.failed-decode-before-good-reads": 5}
+            "source.atoms-lent-to-another-structure": 20, "source.large-text-attribute": 10, "library.created-over-a-legacy-file": 3, "read.failed-decode-before-good-reads": 5}
 CHUNK_TIMEOUT = 900
 
 RTOL, ATOL = 1.2e-7, 1e-38
@@ -84,6 +84,11 @@ def run_chunk(spec, ctx):
     if version == 1:
         make_v1_file(path)
         lib = Lib(path, readonly=False, bufsize=spec["bufsize"])
+    elif spec["chunk"] % 5 == 4:
+        # a current-format library created by overwriting a legacy (v1) file of the same name
+        make_v1_file(path)
+        ctx.count("library.created-over-a-legacy-file")
+        lib = Lib(path, readonly=False, overwrite=True, bufsize=spec["bufsize"], comment="c01 é")
     else:
         lib = Lib(path, readonly=False, overwrite=True, bufsize=spec["bufsize"], comment="c01 é")
 
